@@ -3,29 +3,28 @@
           modelrun PROP file.sx --explain k -> prints the model's explanation (an s-expression) of case k
    Wire format: one case per line; s-expressions over decimal integers. Trusted: this parser/printer. *)
 module BZ = Z
-open Model
 
-let rec pos_of_z (z : BZ.t) : positive =
-  if BZ.equal z BZ.one then XH
-  else if BZ.testbit z 0 then XI (pos_of_z (BZ.shift_right z 1))
-  else XO (pos_of_z (BZ.shift_right z 1))
+let rec pos_of_z (z : BZ.t) : Model.positive =
+  if BZ.equal z BZ.one then Model.XH
+  else if BZ.testbit z 0 then Model.XI (pos_of_z (BZ.shift_right z 1))
+  else Model.XO (pos_of_z (BZ.shift_right z 1))
 
 let coqz_of_z (z : BZ.t) : Model.z =
-  if BZ.sign z = 0 then Z0 else if BZ.sign z > 0 then Zpos (pos_of_z z) else Zneg (pos_of_z (BZ.neg z))
+  if BZ.sign z = 0 then Model.Z0 else if BZ.sign z > 0 then Model.Zpos (pos_of_z z) else Model.Zneg (pos_of_z (BZ.neg z))
 
-let rec z_of_pos (p : positive) : BZ.t =
-  match p with XH -> BZ.one | XO q -> BZ.shift_left (z_of_pos q) 1 | XI q -> BZ.succ (BZ.shift_left (z_of_pos q) 1)
+let rec z_of_pos (p : Model.positive) : BZ.t =
+  match p with Model.XH -> BZ.one | Model.XO q -> BZ.shift_left (z_of_pos q) 1 | Model.XI q -> BZ.succ (BZ.shift_left (z_of_pos q) 1)
 
 let z_of_coqz (z : Model.z) : BZ.t =
-  match z with Z0 -> BZ.zero | Zpos p -> z_of_pos p | Zneg p -> BZ.neg (z_of_pos p)
+  match z with Model.Z0 -> BZ.zero | Model.Zpos p -> z_of_pos p | Model.Zneg p -> BZ.neg (z_of_pos p)
 
 exception Parse of string
 
-let parse_line (s : string) : sx =
+let parse_line (s : string) : Model.sx =
   let n = String.length s in
   let i = ref 0 in
   let skip () = while !i < n && (s.[!i] = ' ' || s.[!i] = '\t' || s.[!i] = '\r') do incr i done in
-  let rec item () : sx =
+  let rec item () : Model.sx =
     skip ();
     if !i >= n then raise (Parse "eof");
     if s.[!i] = '(' then begin
@@ -37,13 +36,13 @@ let parse_line (s : string) : sx =
         if !i >= n then raise (Parse "unclosed");
         if s.[!i] = ')' then (incr i; fin := true) else acc := item () :: !acc
       done;
-      SL (List.rev !acc)
+      Model.SL (List.rev !acc)
     end else begin
       let j = !i in
       if s.[!i] = '-' then incr i;
       while !i < n && s.[!i] >= '0' && s.[!i] <= '9' do incr i done;
       if !i = j then raise (Parse (Printf.sprintf "unexpected char %c at %d" s.[j] j));
-      SZ (coqz_of_z (BZ.of_string (String.sub s j (!i - j))))
+      Model.SZ (coqz_of_z (BZ.of_string (String.sub s j (!i - j))))
     end
   in
   let r = item () in
@@ -51,10 +50,10 @@ let parse_line (s : string) : sx =
   if !i < n then raise (Parse "trailing input");
   r
 
-let rec print_sx (b : Buffer.t) (x : sx) : unit =
+let rec print_sx (b : Buffer.t) (x : Model.sx) : unit =
   match x with
-  | SZ z -> Buffer.add_string b (BZ.to_string (z_of_coqz z))
-  | SL l ->
+  | Model.SZ z -> Buffer.add_string b (BZ.to_string (z_of_coqz z))
+  | Model.SL l ->
     Buffer.add_char b '(';
     List.iteri (fun k y -> if k > 0 then Buffer.add_char b ' '; print_sx b y) l;
     Buffer.add_char b ')'
